@@ -24,7 +24,7 @@ def run(ctx):
     obs = vlib.tlc(ctx, "ardop", "Ardop", "Ardop_liveness.cfg")
     ctx.notes.append("Ardop_liveness.cfg: FlushEventuallyReturns %s (observation, not part of C14)" % ("violated" if obs.error else "holds"))
     traces = ctx.path("traces.ndjson")
-    p = vlib.run_harness(ctx, binary, ["ardop", "--out", traces, "--n", "20" if ctx.tier == "quick" else "400"], timeout=6000)
+    p = vlib.run_harness(ctx, binary, ["ardop", "--out", traces, "--n", "20" if ctx.tier == "quick" else "1500"], timeout=6000)
     if p.returncode != 0:
         raise vlib.Undecided("ardop harness failed: rc=%d %s" % (p.returncode, p.stderr[-3000:]))
     st = json.loads(p.stdout.strip().splitlines()[-1])
